@@ -203,6 +203,54 @@ func history(e *mavlh.Eng, r *gen.Rand, hno int) {
 			out.Stat("forks", 1)
 		}
 		parent := roots[pi]
+		if len(parent.snap.M) > 0 && r.Chance(1, 4) {
+			// removal through the tree API (Tree.Remove + Save): several present keys, clustered at one end so that
+			// the other (untouched, persisted) side becomes the heavy one, plus an absent key
+			keys := parent.snap.Keys()
+			nd := r.Range(1, 1+len(keys)/2)
+			if nd > 12 {
+				nd = r.Range(1, 12)
+			}
+			var del [][]byte
+			start := r.Intn(len(keys))
+			if r.Chance(1, 2) {
+				start = []int{0, len(keys) - nd}[r.Intn(2)]
+				if start < 0 {
+					start = 0
+				}
+			}
+			for j := 0; j < nd; j++ {
+				del = append(del, []byte(keys[(start+j)%len(keys)]))
+			}
+			if r.Chance(1, 2) {
+				del = append(del, kg.Key())
+			}
+			root, vals, st := e.Del(parent.hash, del)
+			out.Stat("removal_batches", 1)
+			out.Stat("removals", int64(len(del)))
+			if len(st) < 5 || st[:5] != "root " {
+				out.Pred("C01|DelKVPair|"+st, fmt.Sprintf("history=%d batch=%d", hno, b))
+				return
+			}
+			snap := mavlh.NewSnap(parent.snap, nil)
+			for j, k := range del {
+				want, had := snap.M[string(k)]
+				if !had {
+					want = nil
+				}
+				if !bytes.Equal(vals[j], want) {
+					out.Pred("C01|Tree.Remove|wrong-removed-value", fmt.Sprintf("history=%d key=%x got=%x want=%x", hno, k, vals[j], want))
+				}
+				delete(snap.M, string(k))
+			}
+			ri := &rootInfo{hash: root, snap: snap, height: parent.height}
+			roots = append(roots, ri)
+			if root != nil {
+				checkRoot(e, r, kg, ri, "fresh", true)
+			}
+			checkRoot(e, r, kg, roots[r.Intn(len(roots))], "later", false)
+			continue
+		}
 		var n int
 		switch r.Pick(4, 4, 1) {
 		case 0:
